@@ -20,6 +20,7 @@ import itertools
 from harness import rt, pool
 
 _A = None
+_INTERESTING = {}
 FILES = None
 
 
@@ -30,6 +31,8 @@ def worker_init():
     rt.patch_asyncio_module(A)
     _A = A
     FILES = pool.aiuti_files()
+    global _INTERESTING
+    _INTERESTING = {FILES['asyncio']: rt.interesting_lines(FILES['asyncio'])}
 
 
 class ProducerError(Exception):
@@ -50,6 +53,7 @@ def execute(sc):
     ctl = rt.install(rt.Ctl(rt.make_strategy(sc.get('strategy', {'kind': 'replay', 'prefix': []})),
                             trace_files=[FILES['asyncio']] if trace else (),
                             max_steps=sc.get('max_steps', 60000)))
+    ctl.interesting = _INTERESTING
     asyncio.set_event_loop_policy(rt.VPolicy())
     tau = sc.get('timeout', 4.0)
     fspec = sc.get('func', {})
@@ -58,7 +62,7 @@ def execute(sc):
     ddur = fspec.get('dur', 0.0)
     ncall = [0]
     keep = []
-    ctl.log('Config', tau=int(round(tau * 1000)) if sc.get('form') != 'default' else 1000)
+    ctl.log('Config', tau=int(round(tau * 1000)) if not str(sc.get('form', '')).startswith('default') else 1000)
     state = {}
 
     async def user_func(S):
@@ -89,6 +93,8 @@ def execute(sc):
             return A.buffer_until_timeout(timeout=tau)(user_func)
         if form == 'default':      # default timeout (1 s)
             return A.buffer_until_timeout(user_func)
+        if form == 'default_bare':  # @buffer_until_timeout() with no option
+            return A.buffer_until_timeout()(user_func)
         return A.BufferAsyncCalls(user_func, timeout=tau)
 
     def submit(buf, it, thr):
